@@ -49,7 +49,8 @@ def Lexer._read_name.while1 (self__source : List Nat) : Nat → Int → Py.Flow 
         | .raise e__ =>
           (if e__ == "IndexError" then
             (.fall self__position)
-          else (.raise e__))
+          else
+            (.raise e__))
         | .fall char =>
           (if ((char == 95) || ((([97, 98, 99, 100, 101, 102, 103, 104, 105, 106, 107, 108, 109, 110, 111, 112, 113, 114, 115, 116, 117, 118, 119, 120, 121, 122, 65, 66, 67, 68, 69, 70, 71, 72, 73, 74, 75, 76, 77, 78, 79, 80, 81, 82, 83, 84, 85, 86, 87, 88, 89, 90] : List Nat).contains char) || (([48, 49, 50, 51, 52, 53, 54, 55, 56, 57] : List Nat).contains char))) then
             (let self__position := (self__position + (1 : Int))
@@ -103,7 +104,8 @@ def Lexer._read_over_digits.while1 (self__source : List Nat) : Nat → Int → N
            | .raise e__ =>
              (if e__ == "IndexError" then
                (.fall (self__position, char))
-             else (.raise e__))
+             else
+               (.raise e__))
            | .fall char =>
              (Lexer._read_over_digits.while1 self__source fuel__ self__position char)))
       else
@@ -120,7 +122,8 @@ def Lexer._read_over_digits (self__source : List Nat) (self__position : Int) : E
     | .raise e__ =>
       (if e__ == "IndexError" then
         (.error "UnexpectedEOF")
-      else (.error e__))
+      else
+        (.error e__))
     | .fall char =>
       (if (!([48, 49, 50, 51, 52, 53, 54, 55, 56, 57] : List Nat).contains char) then
         (.error "UnexpectedCharacter")
